@@ -168,6 +168,7 @@ func init() {
 		p := advProfile(merge(noBare, map[string]int{"garbage": 30, "hugeView": 20, "mutate": 50, "vcGames": 10, "crossInstance": 6, "support": 10, "badBlock": 6, "corruptNested": 25, "wrapLen": 12, "viewFlood": 4}), 350, 2)(th)
 		p.Tail, p.TailQuiet, p.TailProp, p.NoRejects = true, true, "C12", true
 		p.LenientValidators = true
+		p.CommErrors = true
 		p.NilBlocks = true // a correct leader whose factory has nothing to propose (no block, live context): the round must survive it
 		return p
 	},
